@@ -18,6 +18,7 @@ import Cog.Drv.JsOutDrv
 import Cog.Drv.DefaultsDrv
 import Cog.Drv.PyDrv
 import Cog.Drv.BuilderSemDrv
+import Cog.Drv.TotalDrv
 open Cog.Drv
 
 def handle (line : String) : String :=
@@ -47,6 +48,7 @@ def handle (line : String) : String :=
   | "c05pass" :: rest => c05passLine (" ".intercalate rest)
   | "wt" :: rest => wtLine (" ".intercalate rest)
   | "c17witness" :: rest => c17witnessLine (" ".intercalate rest)
+  | "c04pred" :: rest => c04predLine (" ".intercalate rest)
   | _ => "bad-request"
 
 /-- verbs that need the driver's schema store (IO) -/
